@@ -283,6 +283,58 @@ fn check() {
         }
     }
 
+
+    // ---- long framed streams: many frames / large frames in one stream, so that the reader's buffer is refilled,
+    //      compacted and renewed many times while a partial frame is pending. Segmentations: one frame per segment
+    //      (baseline, what the project's own writer produces), everything at once, fixed segment sizes from 1 byte to
+    //      64 KiB + 1, and segments one byte short of / beyond a frame. The frames that come out (and the clean end
+    //      after the last one) must not depend on the segmentation.
+    let long_grid: Vec<(usize, usize)> = if chk.thorough() {
+        vec![(200, 1000), (6, 50020), (40, 8000), (300, 300), (3, 65000), (1000, 100), (30, 20000), (130, 1001), (10, 65507)]
+    } else {
+        vec![(200, 1000), (6, 50020), (40, 8000), (300, 300), (3, 65000)]
+    };
+    let mut long_cases = 0u64;
+    for (nframes, blen) in &long_grid {
+        let addr = [1u8, 6, 127, 0, 0, 1, 0, 53];
+        let frames: Vec<Vec<u8>> = (0..*nframes).map(|i| rpfm(i as u32, &addr, &(0..*blen).map(|k| ((k * 31 + i * 7) % 251) as u8).collect::<Vec<u8>>())).collect();
+        let data: Vec<u8> = frames.iter().flatten().copied().collect();
+        let flen = frames[0].len();
+        let base = decode_frames_long(ChunkStream::new(frames.clone()));
+        match &base {
+            Ok((n, _, true)) if *n == *nframes => {}
+            other => {
+                chk.violation("decoder", "Frames:long-stream:baseline", format!("{nframes} frames of {blen} bytes, one per segment: {:?}", other.as_ref().map(|x| (x.0, x.2))), json!({"frames": nframes, "body": blen}));
+                continue;
+            }
+        }
+        let mut sizes: Vec<usize> = vec![data.len(), 7, 999, 1499, 4096, 8191, 8192, 16384, 65535, 65536, 65537, flen - 1, flen + 1, 2 * flen - 1];
+        if data.len() <= 400_000 {
+            sizes.push(1);
+        }
+        sizes.sort();
+        sizes.dedup();
+        let sizes: Vec<usize> = sizes.into_iter().filter(|s| *s >= 1).collect();
+        par_for(sizes.len(), |i| {
+            decodes.fetch_add(1, Ordering::Relaxed);
+            let seg = sizes[i];
+            let chunks: Vec<Vec<u8>> = data.chunks(seg).map(|c| c.to_vec()).collect();
+            let got = decode_frames_long(ChunkStream::new(chunks));
+            outcomes.add(&(nframes, blen, got.as_ref().map(|g| (g.0, g.2)).ok()));
+            if got != base {
+                let (n, clean) = got.as_ref().map(|g| (g.0, g.2)).unwrap_or((0, false));
+                chk.violation(
+                    "decoder",
+                    "Frames:long-stream:segmentation-changes-result",
+                    format!("{nframes} frames of {blen} body bytes delivered in segments of {seg} bytes: {} ({n} frames came out, {}); one frame per segment gives all {nframes}", got.as_ref().err().cloned().unwrap_or("different frames".into()), if clean { "then a clean end of stream" } else { "then an error" }),
+                    json!({"frames": nframes, "body": blen, "segment": seg}),
+                );
+            }
+        });
+        long_cases += sizes.len() as u64;
+    }
+    samples.push(json!({"long_streams": long_grid.iter().map(|(n, b)| format!("{n} frames x {b} bytes")).collect::<Vec<_>>(), "cases": long_cases}));
+
     let n = decodes.load(Ordering::Relaxed);
     if chk.violation_count() == 0 && (n < 10_000 || outcomes.len() < 20) {
         machinery(format!("vacuous: decodes={n} outcomes={}", outcomes.len()));
@@ -291,7 +343,7 @@ fn check() {
         "exhaustive": true,
         "states": outcomes.len(), "transitions": n, "traces_validated_against_impl": n,
         "evaluations": n, "distinct_nontrivial": outcomes.len(),
-        "rule": format!("{} valid messages (HTTP request/response heads, SOCKS4/4a/5 negotiations+requests, replies, 1-3 RPFM frames) x trailing payload in {{none, 1 byte, 5 bytes}}; all 2^(n-1) segmentations when n <= {}, otherwise all 1- and 2-cut sets + byte-at-a-time; EOF after every proper prefix (one segment and byte-wise). hand-over: CONNECT head (udp, inline) + 2 frames through the real h11c_handshake/on_connect and 200 reply + 2 frames through the real h11c_connect under all 1- and 2-cut sets + byte-at-a-time, frames read from the tunnel; hand-over to the byte tunnel: upstream reply (HTTP / SOCKS5 / SOCKS4) + origin banner and CONNECT head + early data through the real readers and the real copy_bidi under the same cut sets. distinct = distinct (parse result, remainder) outcomes", msgs.len(), exhaustive_limit),
+        "rule": format!("{} valid messages (HTTP request/response heads, SOCKS4/4a/5 negotiations+requests, replies, 1-3 RPFM frames) x trailing payload in {{none, 1 byte, 5 bytes}}; all 2^(n-1) segmentations when n <= {}, otherwise all 1- and 2-cut sets + byte-at-a-time; EOF after every proper prefix (one segment and byte-wise). hand-over: CONNECT head (udp, inline) + 2 frames through the real h11c_handshake/on_connect and 200 reply + 2 frames through the real h11c_connect under all 1- and 2-cut sets + byte-at-a-time, frames read from the tunnel; hand-over to the byte tunnel: upstream reply (HTTP / SOCKS5 / SOCKS4) + origin banner and CONNECT head + early data through the real readers and the real copy_bidi under the same cut sets; long framed streams (200 x 1000, 6 x 50020, 40 x 8000, 300 x 300, 3 x 65000 bytes; thorough more) in segments of 1 byte ... 64 KiB + 1, one byte short of / beyond a frame and all at once, against one frame per segment. distinct = distinct (parse result, remainder) outcomes", msgs.len(), exhaustive_limit),
         "messages": msgs.len(), "segmentation_cases": seg_cases, "handover_segmentations": handover_cases, "truncation_points": trunc_cases,
         "samples": samples,
     });
@@ -303,6 +355,37 @@ fn check() {
             "messages longer than the exhaustive limit get all single cuts, all pairs of cuts and byte-at-a-time, not all subsets".into(),
         ],
     );
+}
+
+
+/// Reads a framed stream to its end with the real reader: (frames, hash of everything that came out, clean end).
+fn decode_frames_long(stream: ChunkStream) -> Result<(usize, u64, bool), String> {
+    catch(|| {
+        let fut = async move {
+            use std::hash::{Hash, Hasher};
+            let r = BufReader::new(stream);
+            let (mut fr, _fw) = frames_from_stream(0, r);
+            let mut h = std::collections::hash_map::DefaultHasher::new();
+            let mut n = 0usize;
+            loop {
+                match fr.read().await {
+                    Ok(Some(f)) => {
+                        n += 1;
+                        format!("{:?}", f.addr).hash(&mut h);
+                        f.session_id.hash(&mut h);
+                        f.body().hash(&mut h);
+                    }
+                    Ok(None) => return (n, h.finish(), true),
+                    Err(_) => return (n, h.finish(), false),
+                }
+                if n > 100_000 {
+                    return (n, 0, false);
+                }
+            }
+        };
+        run_ready(fut, 50_000_000)
+    })
+    .and_then(|o| o.ok_or_else(|| "decoder did not terminate".to_string()))
 }
 
 /// Runs the real head parser and hands the connection over to the framed tunnel; returns the frames the tunnel
